@@ -41,7 +41,6 @@ import (
 	"github.com/zenon-network/go-zenon/chain/nom"
 	"github.com/zenon-network/go-zenon/common"
 	"github.com/zenon-network/go-zenon/common/types"
-	"github.com/zenon-network/go-zenon/p2p"
 	"github.com/zenon-network/go-zenon/protocol"
 	"github.com/zenon-network/go-zenon/protocol/downloader"
 	. "zharness/hz"
@@ -50,7 +49,7 @@ import (
 func runSyncParent(rng *rand.Rand, n int, out *Out, _ []string) {
 	// most sessions take a fraction of a second; those in which the node has to wait for its own timers (5 s hash request,
 	// 9 s block request, 4 s synchronisation cycle) take 10-15 s of waiting: many children, few sessions each
-	par := 18
+	par := 36
 	chunk := (n + par - 1) / par
 	if chunk > 20 {
 		chunk = 20
@@ -74,18 +73,20 @@ type syncPlan struct {
 	Genuine int    // genuine hashes listed before the self-made ones
 	L       int    // number of self-made momentums
 	Deliver string // how B answers block requests
+	Link    string // what the self-made momentums name as their previous momentum
+	Returns int    // how often B, dropped by the node, comes back under a new identity and plays the same session again
 }
 
 func (p syncPlan) term() []interface{} {
 	return []interface{}{"B-hostile-from", p.Step, "B-td", p.TD, "variant", p.Variant, "then", p.Then, "heights", p.Heights,
-		"genuine-first", I64(int64(p.Genuine)), "self-made", I64(int64(p.L)), "delivery", p.Deliver}
+		"genuine-first", I64(int64(p.Genuine)), "self-made", I64(int64(p.L)), "linked-to", p.Link, "delivery", p.Deliver, "B-returns-after-a-drop", I64(int64(p.Returns))}
 }
 
 // the schedule: consecutive scenario numbers walk through the steps and, for the hashes step, through the height classes,
 // so that a run of a dozen scenarios covers every step and a spread of heights whatever the seed
-var syncSteps = []string{"hashes", "blocks", "hashes", "ancestor", "hashes", "search", "hashes", "status", "hashes", "none", "hashes", "ancestor"}
+var syncSteps = []string{"hashes", "blocks", "on-top", "ancestor", "hashes", "search", "on-top", "status", "hashes", "none", "hashes", "ancestor"}
 var heightClasses = []string{"below-ancestor", "contiguous", "zero", "above-td", "max", "gaps", "genuine-below", "window-edge",
-	"2^63+offset", "repeated", "ancestor", "2^63", "two", "descending", "mixed", "2^63-1", "one", "2^63+1"}
+	"2^63+offset", "repeated", "ancestor", "2^63", "two", "descending", "mixed", "2^63-1", "one", "2^63+1", "after-genuine"}
 var tdClasses = []string{"above-A", "far-above", "2^63", "max", "between", "node", "below", "zero"}
 var ancestorVariants = []string{"other-chain", "too-many", "empty", "one", "reversed", "shuffled", "shifted", "silence"}
 var searchVariants = []string{"none", "two", "unknown", "wrong-height", "always-unknown", "silence"}
@@ -117,14 +118,43 @@ func pickDelivery(rng *rand.Rand) string {
 // timeout, one after the other (a session of 20-30 s, all of it waiting): long runs only.
 func planFor(i int, rng *rand.Rand, shortLists bool) syncPlan {
 	p := syncPlan{Step: syncSteps[i%len(syncSteps)], Then: "honest", Variant: "-"}
-	p.Heights = heightClasses[(i/2)%len(heightClasses)]
+	// the hashes sessions walk through the height classes: 4 per round of the schedule
+	walk := 0
+	for j := 0; j < i%len(syncSteps); j++ {
+		if syncSteps[j] == "hashes" {
+			walk++
+		}
+	}
+	p.Heights = heightClasses[((i/len(syncSteps))*4+walk)%len(heightClasses)]
 	p.Deliver = pickDelivery(rng)
 	p.L = []int{1, 2, 4, 8, 16, 24}[rng.Intn(6)]
 	if !shortLists && p.L < 8 {
 		p.L = 8
 	}
 	if rng.Intn(3) == 0 {
-		p.Genuine = 1 + rng.Intn(6)
+		p.Genuine = []int{1, 1, 1, 2, 3, 4, 5, 6}[rng.Intn(8)]
+	}
+	if p.Heights == "after-genuine" { // on top of the genuine momentums listed before them (often just the node's own head)
+		p.Genuine = []int{1, 1, 1, 2, 3, 6}[rng.Intn(6)]
+	}
+	p.Link = []string{"each-other", "each-other", "each-other", "by-height", "random", "random"}[rng.Intn(6)]
+	// a B that the node drops comes back (a new identity costs a peer nothing) and plays its session again: what the
+	// fetchers of the downloader do to each other while a synchronisation is being aborted is a matter of microseconds
+	p.Returns = []int{4, 8, 12, 16, 24}[rng.Intn(5)]
+	if p.Step == "on-top" {
+		// B's momentums in ONE import batch with momentums that honest peers deliver: B lists the node's own head (which
+		// the downloader always asks for first; an honest peer delivers it, after a network delay) and puts its own
+		// momentums on top - linked to it, or to the genuine momentum of the height below, or to nothing the node knows
+		p.Step, p.Heights = "hashes", "after-genuine"
+		p.Genuine = []int{1, 1, 2, 3}[rng.Intn(4)]
+		p.Link = []string{"random", "each-other", "by-height"}[(i/len(syncSteps)+i%len(syncSteps)/4)%3]
+		p.Deliver = []string{"as-asked", "as-asked", "reordered", "duplicated"}[rng.Intn(4)]
+		if (i/len(syncSteps)+i%len(syncSteps)/4)%2 == 0 {
+			// ... or B makes the node look for the common ancestor far below (the head batch of the ancestor search answered
+			// with hashes of another chain: ancestor 0), lists ALL the momentums the node already has (Genuine < 0), which the
+			// honest peers deliver, and puts its own on top
+			p.Step, p.Variant, p.Then, p.Genuine = "ancestor", "other-chain", "hashes", -1
+		}
 	}
 	// B is the peer the node synchronises with
 	p.TD = []string{"above-A", "above-A", "above-A", "far-above", "2^63", "max"}[rng.Intn(6)]
@@ -135,9 +165,11 @@ func planFor(i int, rng *rand.Rand, shortLists bool) syncPlan {
 			p.Then = "hashes"
 		}
 	case "ancestor":
-		p.Variant = ancestorVariants[rng.Intn(len(ancestorVariants))]
-		if rng.Intn(2) == 0 {
-			p.Then = "hashes"
+		if p.Genuine >= 0 {
+			p.Variant = ancestorVariants[rng.Intn(len(ancestorVariants))]
+			if rng.Intn(2) == 0 {
+				p.Then = "hashes"
+			}
 		}
 	case "search":
 		p.Variant = searchVariants[rng.Intn(len(searchVariants))]
@@ -154,8 +186,11 @@ func planFor(i int, rng *rand.Rand, shortLists bool) syncPlan {
 	case "none":
 		p.Deliver = "as-asked"
 	}
+	if p.Variant == "silence" || p.Deliver == "silence" || p.Deliver == "empty" || p.Deliver == "others-only" {
+		p.Returns = 0 // (each of these sessions is 5-9 s of the node's timers)
+	}
 	if p.Step != "hashes" && p.Then != "hashes" {
-		p.Heights, p.L, p.Genuine = "-", 0, 0
+		p.Heights, p.L, p.Genuine, p.Link = "-", 0, 0, "-"
 	} else if (p.Deliver == "empty" || p.Deliver == "silence" || p.Deliver == "others-only") && p.L < 8 {
 		// hashes nobody delivers: enough of them for every peer to be asked at once (each peer that is asked costs the node
 		// its 9 s block request timeout; one hash would make the round of the peers one after the other)
@@ -166,6 +201,7 @@ func planFor(i int, rng *rand.Rand, shortLists bool) syncPlan {
 
 type syncB struct {
 	s           *scenario
+	r           *remote // B's connection (B returns under new identities: one syncB per connection)
 	plan        syncPlan
 	rng         *rand.Rand
 	td          uint64
@@ -187,6 +223,7 @@ type syncB struct {
 	left      int32
 	lastAct   int64 // unix nano
 	pendingSM int32 // self-made momentums listed and not yet delivered by B
+	curG      int   // genuine hashes at the head of the list that is out
 }
 
 func (b *syncB) setHostile() {
@@ -251,6 +288,8 @@ func (b *syncB) heightsOf(class string, from uint64, n int) []uint64 {
 			hs[i] = from + 1
 		case "descending":
 			hs[i] = from + uint64(n-1-i)
+		case "after-genuine":
+			hs[i] = from + uint64(b.curG) + u
 		default: // mixed
 			hs[i] = []uint64{below(), from - 1, from, from + u, 0, 2, b.td + 1, 1<<63 - 1, 1 << 63, 1<<63 + from, ^uint64(0), from + 4095, from + 4096}[rng.Intn(13)]
 		}
@@ -263,7 +302,14 @@ func (b *syncB) hostileHashes(from uint64) []types.Hash {
 	s := b.s
 	topA := uint64(len(s.w.hashA) - 1)
 	var list []types.Hash
-	for i := 0; i < b.plan.Genuine && from+uint64(i) <= topA; i++ {
+	b.curG = b.plan.Genuine
+	if b.curG < 0 { // all that the node has from there on
+		b.curG = 1
+		if from <= s.la {
+			b.curG = int(s.la - from + 1)
+		}
+	}
+	for i := 0; i < b.curG && from+uint64(i) <= topA; i++ {
 		list = append(list, s.w.hashA[from+uint64(i)])
 	}
 	if b.plan.Heights == "genuine-below" {
@@ -291,6 +337,14 @@ func (b *syncB) hostileHashes(from uint64) []types.Hash {
 		prev = list[n-1]
 	}
 	for _, h := range b.heightsOf(b.plan.Heights, from, b.plan.L) {
+		switch b.plan.Link {
+		case "by-height": // the genuine momentum below its height, where there is one
+			if h >= 2 && h-1 <= topA {
+				prev = s.w.hashA[h-1]
+			}
+		case "random":
+			b.rng.Read(prev[:])
+		}
 		dm := b.mk(h, prev)
 		hash := dm.Momentum.Hash
 		if _, seen := b.made[hash]; seen {
@@ -310,11 +364,11 @@ func (b *syncB) honest(m inMsg) {
 		b.s.out.Oracle(false, "honest-backend-answers", Tup("B", U64(m.code)))
 		return
 	}
-	b.s.B.sendRaw(baseLen+code, payload, 2*time.Second)
+	b.r.sendRaw(baseLen+code, payload, 2*time.Second)
 }
 
 func (b *syncB) sendHashes(hs []types.Hash) {
-	b.s.B.send(protocol.BlockHashesMsg, hs, 2*time.Second)
+	b.r.send(protocol.BlockHashesMsg, hs, 2*time.Second)
 }
 
 // is B hostile at this step?
@@ -322,10 +376,42 @@ func (b *syncB) at(step string) bool { return b.plan.Step == step }
 
 func (b *syncB) serve() {
 	s := b.s
-	B := s.B
+	B := b.r
 	topA := uint64(len(s.w.hashA) - 1)
 	searchN := 0
-	for m := range B.in {
+	// B's replies to the hash fetcher and to the block fetcher of the node are made to arrive TOGETHER where it can: when
+	// its hash list is out, B holds the reply to the next hash request ("no more") until the first block request is there
+	// too (150 ms at most), and answers the two back to back, in either order - the two fetchers of the downloader talk to
+	// each other over channels, and what one of them does while the other is ending is part of what a peer controls
+	var backlog []inMsg
+	pair := func(want uint64) (inMsg, bool) {
+		if len(backlog) == 0 {
+			select {
+			case m2, ok := <-B.in:
+				if ok {
+					backlog = append(backlog, m2)
+				}
+			case <-time.After(150 * time.Millisecond):
+			}
+		}
+		if len(backlog) > 0 && backlog[0].code == want && b.rng.Intn(2) == 0 {
+			m2 := backlog[0]
+			backlog = backlog[1:]
+			return m2, true
+		}
+		return inMsg{}, false
+	}
+	noMoreSent := false
+	for {
+		var m inMsg
+		if len(backlog) > 0 {
+			m, backlog = backlog[0], backlog[1:]
+		} else {
+			var ok bool
+			if m, ok = <-B.in; !ok {
+				return
+			}
+		}
 		b.touch()
 		switch m.code {
 		case protocol.GetBlockHashesFromNumberMsg:
@@ -450,7 +536,13 @@ func (b *syncB) serve() {
 					continue
 				}
 				if listed { // the hash list is out: no more hashes
+					if m2, ok := pair(protocol.GetBlocksMsg); ok { // the delivery first
+						var asked []types.Hash
+						rlp.DecodeBytes(m2.payload, &asked)
+						b.deliver(asked, topA)
+					}
 					s.note(fmt.Sprintf("hashes-from-%d:no-more", r.Number))
+					noMoreSent = true
 					b.sendHashes([]types.Hash{})
 					continue
 				}
@@ -463,6 +555,7 @@ func (b *syncB) serve() {
 				}
 				s.note(fmt.Sprintf("hashes-from-%d:%d-genuine+self-made-heights-%v", r.Number, len(list)-len(hts), hts))
 				s.progressFromPeer(Tup(append(append([]interface{}{}, s.desc...), "B-lists-after-request-from", U64(r.Number), "self-made-heights", fmt.Sprint(hts), "B-did", fmt.Sprint(s.acts()))...))
+				noMoreSent = false
 				b.mu.Lock()
 				b.listed = true
 				b.nextFrom = r.Number + uint64(len(list))
@@ -474,10 +567,35 @@ func (b *syncB) serve() {
 		case protocol.GetBlockHashesMsg:
 			b.honest(m)
 		case protocol.GetBlocksMsg:
+			b.mu.Lock()
+			listed := b.listed
+			b.mu.Unlock()
+			if listed && !noMoreSent {
+				if m2, ok := pair(protocol.GetBlockHashesFromNumberMsg); ok { // "no more hashes" first
+					var r getBlockHashesFromNumberData
+					rlp.DecodeBytes(m2.payload, &r)
+					s.note(fmt.Sprintf("hashes-from-%d:no-more", r.Number))
+					noMoreSent = true
+					b.sendHashes([]types.Hash{})
+				}
+			}
 			var asked []types.Hash
 			rlp.DecodeBytes(m.payload, &asked)
 			b.deliver(asked, topA)
 		}
+	}
+}
+
+// the downloader is (or within d becomes) idle
+func (s *scenario) idleSoon(d time.Duration) bool {
+	for t0 := time.Now(); ; {
+		if !s.pm.VerifSynchronising() {
+			return true
+		}
+		if time.Since(t0) > d {
+			return false
+		}
+		time.Sleep(5 * time.Millisecond)
 	}
 }
 
@@ -494,7 +612,7 @@ func (s *scenario) acts() []string {
 // B is asked for blocks
 func (b *syncB) deliver(asked []types.Hash, topA uint64) {
 	s := b.s
-	B := s.B
+	B := b.r
 	style := "as-asked"
 	selfMade := false
 	for _, h := range asked {
@@ -539,57 +657,63 @@ func (b *syncB) deliver(asked []types.Hash, topA uint64) {
 		b.setHostile()
 	}
 	s.progressFromPeer(Tup(append(append([]interface{}{}, s.desc...), "B-delivers", note, "B-did", fmt.Sprint(s.acts()))...))
-	delivered := true
+	// first: the message the downloader files under its request (queue.Deliver looks at ONE message per request: whatever
+	// comes afterwards meets no pending request)
+	var first []*nom.DetailedMomentum
 	d := 2 * time.Second
 	switch style {
 	case "as-asked":
+		first = l
 		B.send(protocol.BlocksMsg, l, d)
 	case "duplicated":
-		B.send(protocol.BlocksMsg, append(append([]*nom.DetailedMomentum{}, l...), l...), d)
+		first = append(append([]*nom.DetailedMomentum{}, l...), l...)
+		B.send(protocol.BlocksMsg, first, d)
 	case "reordered":
-		r := append([]*nom.DetailedMomentum{}, l...)
-		b.rng.Shuffle(len(r), func(i, j int) { r[i], r[j] = r[j], r[i] })
-		B.send(protocol.BlocksMsg, r, d)
+		first = append([]*nom.DetailedMomentum{}, l...)
+		b.rng.Shuffle(len(first), func(i, j int) { first[i], first[j] = first[j], first[i] })
+		B.send(protocol.BlocksMsg, first, d)
 	case "split":
 		if len(l) < 2 {
+			first = l
 			B.send(protocol.BlocksMsg, l, d)
 			B.send(protocol.BlocksMsg, l, d)
 		} else {
 			k := 1 + b.rng.Intn(len(l)-1)
+			first = l[:k]
 			B.send(protocol.BlocksMsg, l[:k], d)
 			B.send(protocol.BlocksMsg, l[k:], d)
 		}
 	case "plus-unrequested":
-		r := append(others(1+b.rng.Intn(3)), l...)
+		first = append(others(1+b.rng.Intn(3)), l...)
 		if b.rng.Intn(2) == 0 {
-			r = append(r, others(1+b.rng.Intn(3))...)
+			first = append(first, others(1+b.rng.Intn(3))...)
 		}
-		B.send(protocol.BlocksMsg, r, d)
+		B.send(protocol.BlocksMsg, first, d)
 	case "unrequested-first":
 		B.send(protocol.BlocksMsg, others(1+b.rng.Intn(3)), d)
 		B.send(protocol.BlocksMsg, l, d)
 	case "others-only":
 		B.send(protocol.BlocksMsg, others(1+b.rng.Intn(4)), d)
-		delivered = false
 	case "empty":
 		B.send(protocol.BlocksMsg, []*nom.DetailedMomentum{}, d)
-		delivered = false
 	default: // silence
-		delivered = false
 	}
-	if delivered {
-		for _, h := range asked {
-			if dm, ok := b.made[h]; ok && !b.deliveredSM[dm.Momentum.Hash] {
-				b.deliveredSM[dm.Momentum.Hash] = true
-				atomic.AddInt32(&b.pendingSM, -1)
-			}
+	wasAsked := map[types.Hash]bool{}
+	for _, h := range asked {
+		wasAsked[h] = true
+	}
+	for _, dm := range first {
+		h := dm.Momentum.Hash
+		if !wasAsked[h] {
+			continue
 		}
-	}
-	if delivered && offset > 0 {
-		for _, ht := range hts {
-			if ht < offset || ht-offset >= 8192 { // (the window moves up by what has been imported meanwhile)
-				atomic.StoreInt32(&b.outOfWin, 1)
-			}
+		if _, own := b.made[h]; own && !b.deliveredSM[h] {
+			b.deliveredSM[h] = true
+			atomic.AddInt32(&b.pendingSM, -1)
+		}
+		// outside the download window (which moves up by what has been imported meanwhile: the upper side with a margin)
+		if ht := dm.Momentum.Height; offset > 0 && (ht < offset || ht-offset >= 8192) {
+			atomic.StoreInt32(&b.outOfWin, 1)
 		}
 	}
 }
@@ -604,7 +728,7 @@ func (b *syncB) offsetGuess() uint64 {
 
 func runSyncScenario(w *world, idx int, planNo int, shortLists bool) {
 	rng, out := w.rng, w.out
-	s := &scenario{w: w, rng: rng, out: out, done: make(chan struct{})}
+	s := &scenario{w: w, rng: rng, out: out, done: make(chan struct{}), honestDelay: true}
 	topA := uint64(len(w.hashA) - 1)
 	plan := planFor(planNo, rng, shortLists)
 	// the node: on a prefix of A's chain
@@ -629,10 +753,11 @@ func runSyncScenario(w *world, idx int, planNo int, shortLists bool) {
 	s.pm = protocol.NewProtocolManager(1, networkId, s.l.Br)
 	s.pm.Start()
 
-	b := &syncB{s: s, plan: plan, rng: rand.New(rand.NewSource(rng.Int63())), made: map[types.Hash]*nom.DetailedMomentum{}, deliveredSM: map[types.Hash]bool{}, height: map[types.Hash]uint64{}}
+	heightOf := map[types.Hash]uint64{}
 	for h := uint64(1); h <= topA; h++ {
-		b.height[w.hashA[h]] = h
+		heightOf[w.hashA[h]] = h
 	}
+	b := &syncB{s: s, plan: plan, rng: rand.New(rand.NewSource(rng.Int63())), made: map[types.Hash]*nom.DetailedMomentum{}, deliveredSM: map[types.Hash]bool{}, height: heightOf}
 	bHead := w.hashA[topA]
 	if rng.Intn(2) == 0 {
 		rng.Read(bHead[:])
@@ -658,7 +783,8 @@ func runSyncScenario(w *world, idx int, planNo int, shortLists bool) {
 	s.bTD, s.bMode = b.td, "sync-session"
 	syncPeer := b.td > topA
 	withC := rng.Intn(3) == 0
-	s.desc = append([]interface{}{"sync-session", I64(int64(idx)), "plan", I64(int64(planNo)), "node-height", U64(s.la), "A-height", U64(topA), "B-announces", U64(b.td), "C", withC}, plan.term()...)
+	aLate := syncPeer && plan.Step != "none" && rng.Intn(3) > 0
+	s.desc = append([]interface{}{"sync-session", I64(int64(idx)), "plan", I64(int64(planNo)), "node-height", U64(s.la), "A-height", U64(topA), "B-announces", U64(b.td), "C", withC, "A-joins-after-B", aLate}, plan.term()...)
 	progress(out, Tup(s.desc...))
 	w.lag.reset()
 	t0 := time.Now()
@@ -666,8 +792,10 @@ func runSyncScenario(w *world, idx int, planNo int, shortLists bool) {
 	if s.B = s.connect("B", b.td, bHead); s.B == nil {
 		return
 	}
+	b.r = s.B
 	b.touch()
 	go b.serve()
+	allB := []*syncB{b}
 	stop := make(chan struct{})
 	var served sync.WaitGroup
 	if withC {
@@ -677,11 +805,29 @@ func runSyncScenario(w *world, idx int, planNo int, shortLists bool) {
 		served.Add(1)
 		go func() { s.serveHonest(s.C, w.backA, false, stop); served.Done() }()
 	}
-	if s.A = s.connect("A", topA, w.hashA[topA]); s.A == nil {
+	// A is there from the start, or joins when B's sessions are over (then B has the node to itself and to the other
+	// honest peers, which serve A's chain but announce no more than the node has: D, C)
+	joinA := func() bool {
+		if s.A = s.connect("A", topA, w.hashA[topA]); s.A == nil {
+			return false
+		}
+		served.Add(1)
+		go func() { s.serveHonest(s.A, w.backA, false, stop); served.Done() }()
+		return true
+	}
+	if !aLate && !joinA() {
 		return
 	}
-	served.Add(1)
-	go func() { s.serveHonest(s.A, w.backA, false, stop); served.Done() }()
+	// (the syncer is told of a new peer BEFORE that peer's status handshake, so it looks at the peers it had before; a
+	// peer that connects next - and may leave at once - makes it look again, now with the new peer among them. Without
+	// it the 4 s cycle of the syncer does)
+	poke := func() {
+		time.Sleep(10 * time.Millisecond)
+		if r := s.connect("passer-by", 1, w.hashA[1]); r != nil {
+			time.Sleep(10 * time.Millisecond)
+			r.app.Close()
+		}
+	}
 	var lates []*remote
 	late := func(name string) {
 		// a late-comer makes the syncer look at its peers right away (honest, at the genesis, serves A's chain)
@@ -713,12 +859,20 @@ wait:
 			break
 		}
 		select {
-		case <-s.A.closed:
-			aDropped = true
-			break wait
 		case <-limit:
 			break wait
 		case <-time.After(20 * time.Millisecond):
+		}
+		if s.A != nil && s.A.isClosed() {
+			aDropped = true
+			break
+		}
+		if s.A == nil && bGone && !s.pm.VerifSynchronising() {
+			if !joinA() {
+				return
+			}
+			poke()
+			continue
 		}
 		if !bGone {
 			idle := time.Since(time.Unix(0, atomic.LoadInt64(&b.lastAct)))
@@ -729,6 +883,24 @@ wait:
 			// (where the node has to drop B, B waits for it: the hash request timeout is 5 s)
 			expectDrop := atomic.LoadInt32(&b.outOfWin)+atomic.LoadInt32(&b.malformed) > 0
 			switch {
+			case s.B.isClosed() && len(allB) <= plan.Returns && time.Since(t0) < 12*time.Second && s.idleSoon(300*time.Millisecond):
+				// dropped, and the synchronisation with it is over (a B that the message handler drops in the middle of a
+				// synchronisation leaves hashes behind that nobody can deliver: every new peer is asked for them and costs
+				// the node its 9 s block request timeout): B comes back under a new identity and plays the same session again
+				// (for 12 s: a session in which an honest peer is asked for one of B's momentums takes 9 s, not 50 ms; once an honest
+				// peer has delivered something its reputation puts it first in line and it is asked for the head of the list)
+				time.Sleep(time.Duration(rng.Intn(40)) * time.Millisecond)
+				nb := &syncB{s: s, plan: plan, rng: rand.New(rand.NewSource(rng.Int63())), td: b.td, made: map[types.Hash]*nom.DetailedMomentum{}, deliveredSM: map[types.Hash]bool{}, height: heightOf}
+				s.note(fmt.Sprintf("dropped;returns-as-B%d", len(allB)+1))
+				if nb.r = s.connect(fmt.Sprintf("B%d", len(allB)+1), b.td, bHead); nb.r == nil {
+					bGone, bFate = true, "dropped"
+					break
+				}
+				nb.touch()
+				go nb.serve()
+				allB = append(allB, nb)
+				s.B, b = nb.r, nb
+				poke()
 			case s.B.isClosed():
 				bGone, bFate = true, "dropped"
 			// (and while self-made momentums that B has listed are still to be delivered B stays for the node's block request
@@ -744,10 +916,9 @@ wait:
 			if bGone {
 				bGoneAt = time.Now()
 			}
-		} else if bFate == "dropped" && fmt.Sprint(s.B.reason) == p2p.DiscUselessPeer.String() && nLate < 2 && time.Since(bGoneAt) > time.Duration(60+400*nLate)*time.Millisecond {
-			// (a peer dropped by the downloader: the synchronisation with it is over. A B that left on its own or was
-			// dropped by the message handler may have left
-			// hashes behind that nobody can deliver; every new peer would be asked for them and cost the node another 9 s)
+		} else if nLate < 2 && time.Since(bGoneAt) > time.Duration(60+400*nLate)*time.Millisecond && !s.pm.VerifSynchronising() {
+			// (B is gone and no synchronisation is running: a new peer makes the syncer look at its peers at once. While a
+			// synchronisation that B left behind is still running a new peer would only be asked for B's hashes)
 			nLate++
 			bGoneAt = time.Now()
 			late(fmt.Sprintf("E%d", nLate))
@@ -758,6 +929,9 @@ wait:
 	s.over = true
 	w.omu.Unlock()
 	took := time.Since(t0)
+	if s.A == nil && !joinA() { // (the node has synchronised through B)
+		return
+	}
 	if !bGone && s.B.isClosed() {
 		bFate = "dropped"
 	}
@@ -778,6 +952,8 @@ wait:
 	out.Count("syncpeer:delivery=" + plan.Deliver)
 	out.Count("syncpeer:B-fate=" + bFate)
 	out.Count(fmt.Sprintf("syncpeer:B-delivered-outside-the-window=%v", atomic.LoadInt32(&b.outOfWin) == 1))
+	out.Count(fmt.Sprintf("syncpeer:B-sessions=%d", len(allB)))
+	out.Count("syncpeer:self-made-linked-to=" + plan.Link)
 	for _, a := range acts {
 		out.Count("syncpeer:B-act:" + actClass(a))
 	}
@@ -811,12 +987,20 @@ wait:
 		ok, why := s.served(s.A)
 		out.Oracle(ok, "node-keeps-serving-the-others", Tup("A", why, detail))
 	}
+	for i, r := range lates { // the other honest peers (they joined late and serve A's chain)
+		if r.isClosed() {
+			out.Oracle(false, "honest-peer-not-dropped-for-others-messages", Tup(fmt.Sprintf("late-comer-%d", i), fmt.Sprint(r.reason), detail))
+		}
+	}
 	if s.C != nil {
 		out.Oracle(!s.C.isClosed(), "honest-peer-not-dropped-for-others-messages", Tup("C", fmt.Sprint(s.C.reason), detail))
 		if !s.C.isClosed() {
 			ok, why := s.served(s.C)
 			out.Oracle(ok, "node-keeps-serving-the-others", Tup("C", why, detail))
 		}
+	}
+	for _, x := range allB {
+		lates = append(lates, x.r)
 	}
 	for _, r := range append([]*remote{s.A, s.B, s.C}, lates...) {
 		if r != nil {
